@@ -277,6 +277,11 @@ func exec(mt *topics.MemTopics, op Op, subs *[]interface{}, qoss *[]byte, concur
 	return res, nil
 }
 
+// hasDollarLevel: some level behind the first one begins with '$'.
+func hasDollarLevel(t string) bool {
+	return strings.Contains(t, "/$")
+}
+
 func hasEmpty(t string) bool {
 	return strings.HasPrefix(t, "/") || strings.HasSuffix(t, "/") || strings.Contains(t, "//")
 }
@@ -376,16 +381,21 @@ func Run(script interface{}, cfg simrt.Config) *world.Outcome {
 
 func checkSequential(sc *Script, calls []*call, out *world.Outcome) {
 	st := state{}
-	emptySeen := false
+	emptySeen, dollarSeen := false, false
 	for i, c := range calls {
 		if hasEmpty(c.op.Filter) {
 			emptySeen = true
+		}
+		if hasDollarLevel(c.op.Filter) {
+			dollarSeen = true
 		}
 		ns, want, errKnown := step(st, c.op, sc.MaxQoS)
 		if ok, why := sameResult(c.op, c.got, want, errKnown); !ok {
 			tag := ""
 			if emptySeen {
 				tag = "/empty-level"
+			} else if dollarSeen {
+				tag = "/dollar-level"
 			}
 			out.Add("C06", "matches-specification", "C06/sequential/"+c.op.K+tag, fmt.Sprintf("call %d %s(%q, sub %d, qos %d, size %d): %s; model state before the call: %s", i, c.op.K, c.op.Filter, c.op.Sub, c.op.QoS, c.op.Size, why, st.key()))
 			return
@@ -399,11 +409,14 @@ type pin struct {
 }
 
 func checkLinearizable(sc *Script, calls []*call, out *world.Outcome) {
-	emptySeen := false
+	emptySeen, dollarSeen := false, false
 	var ops []porcupine.Operation
 	for _, c := range calls {
 		if hasEmpty(c.op.Filter) {
 			emptySeen = true
+		}
+		if hasDollarLevel(c.op.Filter) {
+			dollarSeen = true
 		}
 		got := c.got
 		if c.op.K == "retained" && !got.err {
@@ -444,6 +457,8 @@ func checkLinearizable(sc *Script, calls []*call, out *world.Outcome) {
 		tag := ""
 		if emptySeen {
 			tag = "/empty-level"
+		} else if dollarSeen {
+			tag = "/dollar-level"
 		}
 		var b strings.Builder
 		for _, c := range calls {
